@@ -8,6 +8,16 @@ namespace Petl.Snapshot
 open Petl.Gen
 
 def expectedC14 : List (String × String) := [
+  ("file:comparison.py", "17971f67ee946013"),
+  ("file:config.py", "142bde514c82c29d"),
+  ("file:io/base.py", "e2315106bbcaaf95"),
+  ("file:io/json.py", "9a87ae69473e052e"),
+  ("file:transform/regex.py", "6f7519d83abfcff1"),
+  ("file:transform/reshape.py", "e9dad8513b846f8e"),
+  ("file:transform/sorts.py", "137f7e8a70e043fe"),
+  ("file:transform/unpacks.py", "dc09fa3e6a63a9d8"),
+  ("file:util/base.py", "771a68108eeb730d"),
+  ("file:util/materialise.py", "66208e10041a09c8"),
   ("io.json.DictsView", "0730cd8e741c1a29"),
   ("io.json.iterdicts", "5c0c00d58ed17245"),
   ("transform.regex.itercapture", "0644195b669301b0"),
